@@ -318,6 +318,12 @@ func ruleSweeper(c *Check, rTable, rPrivate, rEffect, rCursor string) {
 						st2 = true
 					}
 				}
+				if (!st1 || !st2) && len(p.Rets) > 0 {
+					// a slice that reports an error ends the pass (R7): its cursor is never used
+					if isNil, f := boolCond(p, "isnil("+p.Rets[len(p.Rets)-1]+")", -1); f && !isNil {
+						continue
+					}
+				}
 				if !st1 || !st2 {
 					badl++
 					c.Bad(rCursor, fnSweepTxn+"/cursor-updated", "a slice ends without unconditionally recording the scanner's cursor and limit state", c.pathPos(p), describe(c, p))
